@@ -202,7 +202,7 @@ func c30RunOnce(capM dag.Metric, ops []c30Op, c30Q time.Duration) (obs []string,
 	case <-allDone:
 	case <-time.After(time.Until(end)):
 	}
-	if noise.Stop() > c30Q*8/10 {
+	if noise.Stop() > c30Q*3/2 {
 		late = true
 	}
 	mu.Lock()
